@@ -11,6 +11,7 @@ macro_rules! dispatch_n {
 pub mod c02;
 pub mod c03;
 pub mod c04;
+pub mod c10;
 
 pub fn lookup(id: &str) -> Option<Prop> {
     Some(match id {
@@ -18,6 +19,7 @@ pub fn lookup(id: &str) -> Option<Prop> {
         "C17" => Prop { header: c02::HEADER17, generate: c02::generate, exec: c02::exec },
         "C03" => Prop { header: c03::HEADER, generate: c03::generate, exec: c03::exec },
         "C04" => Prop { header: c04::HEADER, generate: c04::generate, exec: c04::exec },
+        "C10" => Prop { header: c10::HEADER, generate: c10::generate, exec: c10::exec },
         _ => return None,
     })
 }
